@@ -279,6 +279,20 @@ def run_case(case):
     ob = cards.observables({name: [dict(x=xn, Q2=Q2), dict(x=xn * (1 + 1e-9), Q2=Q2), dict(x=xn * (1 - 1e-9), Q2=Q2)]}, xgrid=xg, deg=gs["deg"], prDIS=case["proc"], ProjectileDIS=case["proj"], is_log=case.get("is_log", True))
     out = yad.run_yadism(th, ob)
     fmat = np.array([[pdf.f(pid, xj) for xj in xg] for pid in cards.PIDS])
+    # round-off of the basis itself next to this node (eko evaluates its Lagrange polynomials in monomial form: on dense high-degree
+    # grids at low x the noise reaches 1e-6..1e-5): |sum_j f(x_j) p_j(u) - f(u)| / |f(u)| at points 1e-8..1e-7 off the node, where the
+    # genuine interpolation error is far below 1e-9; ten times that is allowed on top of the calibrated node tolerance
+    interp_n = run.interpolator(ob)
+    basis_noise = 0.0
+    for du in (-1e-7, -1e-8, 1e-8, 1e-7):
+        u_ = xn * (1.0 + du)
+        if not xg[0] < u_ < 1.0:
+            continue
+        bu_ = run.basis_at(interp_n, float(u_))
+        for ip_, pid in enumerate(cards.PIDS):
+            ex_ = pdf.f(pid, float(u_))
+            if ex_ != 0.0:
+                basis_noise = max(basis_noise, abs(float(fmat[ip_] @ bu_) - ex_) / abs(ex_))
     classes.add("on-node")
     for key in out[name][0].orders:
         vals = [float(np.sum(np.asarray(r.orders[key][0]) * fmat)) for r in out[name]]
@@ -291,7 +305,7 @@ def run_case(case):
         if S > 0:
             nontrivial.add(f"{cellb}|{case['xcls']}|node")
         for v_, lab in ((vals[1], "+"), (vals[2], "-")):
-            if abs(v_ - vals[0]) > NODE_TOL[min(key[0], 2)] * S + 5.0 * E + 1e-300:
+            if abs(v_ - vals[0]) > (NODE_TOL[min(key[0], 2)] + 10.0 * basis_noise) * S + 5.0 * E + 1e-300:
                 viol.append(dict(sig=f"node-discontinuity|{case['kind']}|o{key[0]}", what=f"{name} key {run.key(key)}: prediction at the node x={xn!r} is {vals[0]:.12g} but {v_:.12g} at x(1{lab}1e-9): jump {abs(v_-vals[0])/max(S,1e-300):.2e} of S"))
             else:
                 margin = max(margin, abs(v_ - vals[0]) / (NODE_TOL[min(key[0], 2)] * S + 5.0 * E + 1e-300))
